@@ -94,7 +94,7 @@ def c11_miri(prop, tier, seed, workdir, cfg):
 
 def c03_miri(prop, tier, seed, workdir, cfg):
     """C03: the YAML front matter / escape / consumer slice under Miri (unsafe code of dependencies)."""
-    shards = 4 if tier == "quick" else 16
+    shards = 2 if tier == "quick" else 16
     res = miri_run("C03", tier, seed, workdir, shards, 900 if tier == "quick" else 5400,
                    extra_env={"VERIF_SCALE": "1" if tier == "quick" else "8"})
     return _fold_miri(prop, res, "miri")
